@@ -237,14 +237,48 @@ class Clock:
 
 
 class VDateTime(_dt.datetime):
+    """The logical clock, whichever spelling of "now" the code under test uses."""
+
     @classmethod
     def utcnow(cls):
         Clock.now = Clock.now + Clock.step
         n = Clock.now
         return cls(n.year, n.month, n.day, n.hour, n.minute, n.second, n.microsecond)
 
+    @classmethod
+    def now(cls, tz=None):
+        n = cls.utcnow()
+        if tz is None:
+            return n
+        return n.replace(tzinfo=_dt.timezone.utc).astimezone(tz)
 
-R.datetime = VDateTime
+    @classmethod
+    def today(cls):
+        return cls.utcnow()
+
+
+class _DatetimeModule:
+    """`import datetime` / `import datetime as dt` spelling: the module with the logical clock inside."""
+    datetime = VDateTime
+
+    def __getattr__(self, name):
+        return getattr(_dt, name)
+
+
+def install_clock(m, cls=VDateTime):
+    """Bind the logical clock in a module of the code under test, however it imported datetime."""
+    for k, v in list(vars(m).items()):
+        if v is _dt.datetime:
+            setattr(m, k, cls)
+        elif v is _dt:
+            mod = _DatetimeModule()
+            mod.datetime = cls
+            setattr(m, k, mod)
+
+
+install_clock(R)
+if not any(v is VDateTime or isinstance(v, _DatetimeModule) for v in vars(R).values()):
+    R.datetime = VDateTime     # no datetime import found at module level: keep the historical binding
 
 
 def set_clock(now=None, step=None):
@@ -380,6 +414,22 @@ class VTime:
         if s is not None:
             s.vsleep(seconds * self.oversleep, 'time.sleep')
 
+    # any other clock the limiter might read follows the same virtual wall clock
+    def monotonic(self):
+        return self.perf_counter()
+
+    def time(self):
+        return 1_700_000_000.0 + self.perf_counter()
+
+    def perf_counter_ns(self):
+        return int(self.perf_counter() * 1e9)
+
+    def monotonic_ns(self):
+        return int(self.perf_counter() * 1e9)
+
+    def time_ns(self):
+        return int(self.time() * 1e9)
+
     def __getattr__(self, name):
         import time
         return getattr(time, name)
@@ -388,6 +438,13 @@ class VTime:
 def install_virtual_time():
     import replicat.utils as U
     vt = VTime()
-    U.time = vt
-    U.threading = types.SimpleNamespace(Lock=dsched.CLock)
+    import time as _time
+    for k, v in list(vars(U).items()):
+        if v is _time:
+            setattr(U, k, vt)
+        elif v in (_time.perf_counter, _time.sleep, _time.monotonic, _time.time):
+            setattr(U, k, getattr(vt, v.__name__))     # `from time import sleep, perf_counter` spelling
+    if not any(v is vt for v in vars(U).values()):
+        U.time = vt
+    dsched.install(U)      # locks etc. in replicat.utils, however they are imported
     return vt
